@@ -173,6 +173,28 @@ def rand_cyc(seed):
             return spec
 
 
+def rand_blk(seed):
+    """Cycle of *blocking* connections with a slow->fast member: the fast receiver's ts_max entries that expect zero timestamps
+    are queued behind incomplete ones, and the slow sender's next timestamp needs the receiver's (blocking, skipped back-edge).
+    Rate multiples stay <= 4 so that the documented num_tokens limit (multiple + 1 <= 10) is far away (DESIGN 5.1-n)."""
+    rnd = random.Random(seed * 7907 + 5)
+    rs = rnd.choice([5, 8, 10])
+    rf = rs * rnd.choice([2, 3, 4]) + rnd.choice([0, 0, 1, 3])
+    small = lambda r: rand_dist(rnd, 0.3 / r, kinds=("det0", "det", "norm", "norm"))
+    cd = lambda: rand_dist(rnd, 0.01, kinds=("det0", "det", "norm"))
+    nodes = [dict(name="n0", rate=rs, delay=small(rs), scheduling=rnd.choice("FP"), advance=False),
+             dict(name="n1", rate=rf, delay=small(rf), scheduling=rnd.choice("FP"), advance=False)]
+    conns = [dict(out="n0", inp="n1", window=rnd.randint(1, 4), skip=False, blocking=True, jitter=rnd.choice("LB"), delay=cd()),
+             dict(out="n1", inp="n0", window=rnd.randint(1, 4), skip=True, blocking=True, jitter="L", delay=cd())]
+    k = rnd.random()
+    if k < 0.85:  # a third member, slower than n1, inside or beside the cycle (blocking: its timestamps are needed too)
+        rx = rnd.choice([5, 8, 10, 13])
+        nodes.append(dict(name="n2", rate=rx, delay=small(rx), scheduling=rnd.choice("FP"), advance=False))
+        conns.append(dict(out="n2", inp="n1", window=rnd.randint(1, 3), skip=False, blocking=rnd.random() < 0.85, jitter="L", delay=cd()))
+        conns.append(dict(out="n0", inp="n2", window=rnd.randint(1, 3), skip=rnd.random() < 0.5, blocking=False, jitter=rnd.choice("LB"), delay=cd()))
+    return dict(seed=seed, nodes=nodes, conns=conns, supervisor=rnd.choice(["n0", "n0", "n1"]))
+
+
 def rand_gen(seed, **kw):
     kw = dict(allow_blocking=False, allow_buffer=False, allow_advance=False, allow_phase=False, overrun=False, **kw)
     return rand_spec(seed, **kw)
